@@ -410,13 +410,28 @@ def prove_chain(src_root, ex: Explorer):
         it.hooks[f'{NAMING}:NamingStrategy.should_be_applied'] = lambda it2, f, a, k: applied
         state = {}
 
+        start_dir = Sym(D, 'str')
+
         def loop(it2, node, env):
-            env.vars['path'], env.vars['filename'] = path, fn
+            # the two values the chain carries are identified by their role, not by their names: the local that holds the download directory
+            # the function was given, and the local that holds the empty file name, when the loop is first reached
+            from pyvc.interp import ContinueEx, BreakEx
+            dirs = [k for k, v in env.vars.items() if v is start_dir and k not in ('local_dir',)] or [k for k, v in env.vars.items() if v is start_dir]
+            names = [k for k, v in env.vars.items() if isinstance(v, str) and v == '']
+            if len(dirs) != 1 or len(names) != 1:
+                raise Unsupported(f'chain_strategies: cannot identify the carried directory / file name among {dirs} / {names}')
+            dvar, nvar = dirs[0], names[0]
+            env.vars[dvar], env.vars[nvar] = path, fn
             it2.assign(node.target, s, env)
-            it2.exec_block(node.body, env)
-            state['path'], state['filename'] = env.vars['path'], env.vars['filename']
+            try:
+                it2.exec_block(node.body, env)
+            except (ContinueEx, BreakEx):
+                pass
+            state['path'], state['filename'] = env.vars[dvar], env.vars[nvar]
         it.loop_specs[(f'{NAMING}:chain_strategies', 0)] = loop
-        it.call(func(it, NAMING, 'chain_strategies'), [[s], sstr(ctx, 'remote_path'), Sym(D, 'str')], {})
+        it.call(func(it, NAMING, 'chain_strategies'), [[s], sstr(ctx, 'remote_path'), start_dir], {})
+        if 'path' not in state:
+            raise Unsupported('chain_strategies: the loop over the strategies was not reached')
         if sname == 'NumberDuplicateStrategy':
             ctx.prove('C09.chain.checks-current-location', all(z3.eq(z3str(sa[0]), z3str(path)) and sa[1] is fn for sa in should_args),
                       'should_be_applied must be asked about the directory and name chosen SO FAR, not about the initial download directory')
@@ -461,14 +476,27 @@ def prove_chain(src_root, ex: Explorer):
         it.hooks[f'{NAMING}:{sname}.apply'] = c_apply
         state = {}
 
+        start_dir = sstr(ctx, 'initial_download_directory')
+
         def loop(it2, node, env):
-            env.vars['path'], env.vars['filename'] = path, fn
+            from pyvc.interp import ContinueEx, BreakEx
+            dirs = [k for k, v in env.vars.items() if v is start_dir and k not in ('local_dir',)] or [k for k, v in env.vars.items() if v is start_dir]
+            names = [k for k, v in env.vars.items() if isinstance(v, str) and v == '']
+            if len(dirs) != 1 or len(names) != 1:
+                raise Unsupported(f'chain_strategies: cannot identify the carried directory / file name among {dirs} / {names}')
+            dvar, nvar = dirs[0], names[0]
+            env.vars[dvar], env.vars[nvar] = path, fn
             it2.assign(node.target, s, env)
-            it2.exec_block(node.body, env)
-            state['path'], state['filename'] = env.vars['path'], env.vars['filename']
+            try:
+                it2.exec_block(node.body, env)
+            except (ContinueEx, BreakEx):
+                pass
+            state['path'], state['filename'] = env.vars[dvar], env.vars[nvar]
         it.loop_specs[(f'{NAMING}:chain_strategies', 0)] = loop
         ctx.assume(z3.Implies(EX(z3str(it.call(it.natives['os.path.join'], [path, fn], {}))), EX(path.t)))       # A-fs
-        it.call(func(it, NAMING, 'chain_strategies'), [[s], sstr(ctx, 'remote_path'), sstr(ctx, 'initial_download_directory')], {})
+        it.call(func(it, NAMING, 'chain_strategies'), [[s], sstr(ctx, 'remote_path'), start_dir], {})
+        if 'path' not in state:
+            raise Unsupported('chain_strategies: the loop over the strategies was not reached')
         p2, f2 = z3str(state['path']), z3str(state['filename'])
         full = z3str(it.call(it.natives['os.path.join'], [Sym(p2, 'str'), Sym(f2, 'str')], {}))
         ctx.prove(f'C09.chain.not-exists[last={sname}]', z3.Not(EX(full)),
